@@ -19,6 +19,10 @@ pub enum OpKind {
     Fill { len: usize, init: u8, via: FillVia },
     /// R6: try_fill_slice(len) versus len x gen() on two copies of one byte stream
     FillVsElem { len: usize, stream: Vec<u8> },
+    /// exact fibre counting at any width: serve consecutive words start, start+-1, ... as the only word of
+    /// successive calls and count the accepted words of each value whose contiguous fibre is seen completely.
+    /// `via`: 0 gen_range, 1 sample_single(_inclusive), 2 Uniform object
+    FibreWalk { low: Vec<u8>, high: Vec<u8>, inclusive: bool, via: u8, start: Vec<u8>, up: bool, fibres: u8, max_steps: u32 },
 }
 
 #[derive(Clone, Debug, PartialEq)]
@@ -40,7 +44,7 @@ pub struct RunSpec {
     pub infallible: bool,
     pub fresh_seed: u64,
     pub ops: Vec<Op>,
-    /// generator's label: 0 mixed, 1 cluster, 2 fault-free twin
+    /// generator's label: 0 mixed, 1 cluster, 2 fault-free twin, 3 fibre walk
     pub mode: u8,
 }
 
@@ -104,6 +108,7 @@ impl Op {
             OpKind::Uniform { .. } => "uniform_sample",
             OpKind::Fill { .. } => "fill",
             OpKind::FillVsElem { .. } => "fill_vs_elementwise",
+            OpKind::FibreWalk { .. } => "fibre_walk",
         }
     }
     pub fn to_json(&self) -> J {
@@ -136,6 +141,16 @@ impl Op {
                 o.put("len", J::u(*len));
                 o.put("stream", J::Str(hex(stream)));
             }
+            OpKind::FibreWalk { low, high, inclusive, via, start, up, fibres, max_steps } => {
+                o.put("low", J::Str(hex(low)));
+                o.put("high", J::Str(hex(high)));
+                o.put("inclusive", J::Bool(*inclusive));
+                o.put("via", J::s(["gen_range", "sample_single", "uniform_sample"][*via as usize % 3]));
+                o.put("start_word", J::Str(hex(start)));
+                o.put("upward", J::Bool(*up));
+                o.put("fibres", J::i(*fibres as i64));
+                o.put("max_steps", J::i(*max_steps as i64));
+            }
         }
         o.put("dynamic", J::Bool(self.dynamic));
         o.put("shape", J::i(self.shape as i64));
@@ -159,6 +174,20 @@ impl Op {
                 let v = j.get("via").and_then(|x| x.str()).ok_or("via")?;
                 let via = [FillVia::TryFillSlice, FillVia::FillTrait, FillVia::RngTryFill, FillVia::RngFill].into_iter().find(|x| via_name(*x) == v).ok_or("bad via")?;
                 OpKind::Fill { len: j.get("len").and_then(|x| x.int()).ok_or("len")? as usize, init: j.get("init").and_then(|x| x.int()).unwrap_or(0) as u8, via }
+            }
+            "fibre_walk" => {
+                let v = j.get("via").and_then(|x| x.str()).ok_or("via")?;
+                let via = ["gen_range", "sample_single", "uniform_sample"].iter().position(|x| *x == v).ok_or("bad via")? as u8;
+                OpKind::FibreWalk {
+                    low: hx("low")?,
+                    high: hx("high")?,
+                    inclusive: bl("inclusive")?,
+                    via,
+                    start: hx("start_word")?,
+                    up: bl("upward")?,
+                    fibres: j.get("fibres").and_then(|x| x.int()).ok_or("fibres")? as u8,
+                    max_steps: j.get("max_steps").and_then(|x| x.int()).ok_or("max_steps")? as u32,
+                }
             }
             "fill_vs_elementwise" => OpKind::FillVsElem { len: j.get("len").and_then(|x| x.int()).ok_or("len")? as usize, stream: hx("stream")? },
             o => return Err(format!("unknown op {}", o)),
